@@ -475,12 +475,54 @@ def run(tier, seed, t0):
                                [{"date": d.isoformat(), "seed": seed, "n_pop": 3 if tier == "quick" else 10} for d in ds])
     total, errors = core.merge(results)
     total.extra["internal_functions"] = len(names)
+    if tier == "thorough":
+        atheris_campaign(seed, total)
     return core.finish(PROP, tier=tier, seed=seed, level=LEVEL, rule=RULE, assumptions=ASSUMPTIONS, total=total,
                        errors=errors, t0=t0, min_evaluations=500, min_nontrivial=100)
 
 
+def atheris_campaign(seed, total, runs=150000):
+    """Coverage-guided search over the same grammar (thorough tier): 8 libFuzzer processes with an
+    empty corpus each; a finding is re-checked and keyed exactly like sub-check 2."""
+    import re
+    import shutil
+    import subprocess
+    import tempfile
+
+    from .. import VERIF_DIR
+
+    tmp = tempfile.mkdtemp(prefix="vf-c09-fuzz-")
+    procs = []
+    try:
+        for i in range(8):
+            corp = f"{tmp}/corpus{i}"
+            __import__("os").makedirs(corp)
+            procs.append(subprocess.Popen(
+                [sys.executable, "-m", "vf.fuzz.c09_fuzz", f"-runs={runs // 8}", f"-seed={dates.sub_seed(seed, 'atheris', i) % 2**31 or 1}",
+                 "-max_len=256", f"-artifact_prefix={tmp}/crash{i}-", corp],
+                cwd=VERIF_DIR, stdout=subprocess.PIPE, stderr=subprocess.STDOUT, text=True))
+        done = 0
+        known = core.load_known(PROP)
+        for p_ in procs:
+            out, _ = p_.communicate(timeout=3600)
+            m = re.search(r"Done (\d+) runs", out)
+            if m:
+                done += int(m.group(1))
+            m = re.search(r"VIOLATION property=C09 key=(\S+)\n(.*?)(?:\n==|\Z)", out, re.S)
+            if m and m.group(1) not in known:
+                total.failures.append(core.Failure(m.group(1), "atheris campaign: " + m.group(2)[:1500], {"kind": "atheris-log", "log": out[-3000:]}))
+        total.extra["atheris_runs"] = done
+        total.evaluations += done
+    except Exception as e:  # noqa: BLE001
+        total.notes.append(f"atheris campaign not run: {type(e).__name__}: {e}")
+    finally:
+        shutil.rmtree(tmp, ignore_errors=True)
+
+
 def replay(case):
     kind = case.get("kind")
+    if kind == "atheris-log":
+        return [core.Failure("atheris-log", "see the stored log; re-run the thorough tier to reproduce")]
     if kind == "program":
         return check_program(case)[0]
     if kind == "real":
